@@ -245,6 +245,13 @@ def run_correspondence(harness, prop, tier, seed, outdir):
         for c, i, m in zip(fc, fi, fm):
             n += 1
             c, i, m = c.rstrip("\n"), i.rstrip("\n"), m.rstrip("\n")
+            # wildcard: an implementation-side token ending in `:?` (private state that could not be
+            # observed) matches whatever the model prints in that position
+            if ":?" in i:
+                it, mt = i.split(" "), m.split(" ")
+                if len(it) == len(mt):
+                    mt = [a if a.endswith(":?") else b for a, b in zip(it, mt)]
+                    m = " ".join(mt)
             results[i] = results.get(i, 0) + 1
             rows.append((c, i))
             if i != m and m != "skip":
